@@ -475,6 +475,67 @@ fn prior_aged(env: &Env, world: &World, a: &mut Rep, b: &mut Rep, accepted: &Acc
 
 // ---- git ------------------------------------------------------------------------------------------
 
+/// Makes every accepted `add_version` ask for a snapshot (urgency High), so that the replica's sync
+/// goes on into the backend's `add_snapshot` (and, for git, its cleanup of covered versions). Urgency
+/// is only the server's advice; the backend steps it leads to are what the stratum interrupts.
+pub struct ForceHigh(pub Box<dyn Server>);
+
+#[async_trait::async_trait(?Send)]
+impl Server for ForceHigh {
+    async fn add_version(&mut self, p: Uuid, b: Vec<u8>) -> Result<(AddVersionResult, taskchampion::server::SnapshotUrgency), taskchampion::Error> {
+        let (r, u) = self.0.add_version(p, b).await?;
+        Ok(match r {
+            AddVersionResult::Ok(_) => (r, taskchampion::server::SnapshotUrgency::High),
+            _ => (r, u),
+        })
+    }
+    async fn get_child_version(&mut self, p: Uuid) -> Result<GetVersionResult, taskchampion::Error> {
+        self.0.get_child_version(p).await
+    }
+    async fn add_snapshot(&mut self, v: Uuid, s: Vec<u8>) -> Result<(), taskchampion::Error> {
+        self.0.add_snapshot(v, s).await
+    }
+    async fn get_snapshot(&mut self) -> Result<Option<(Uuid, Vec<u8>)>, taskchampion::Error> {
+        self.0.get_snapshot().await
+    }
+}
+
+/// Prior history for the aged git strata: three versions and a snapshot (of the first, whose file that
+/// snapshot's own cleanup already removes) committed "400 days ago"
+/// (the wrapper sets the commit dates), one recent version by B, replica A with pending changes.
+/// The target sync (urgency forced to High) then adds a version, stores a snapshot for it and the
+/// backend's cleanup removes the two remaining expired version files that the snapshot covers.
+fn prior_git_aged(env: &Env, w: &GitWorld, a: &mut Rep, b: &mut Rep, accepted: &Accepted) -> Result<(), String> {
+    let e = |e: taskchampion::Error| format!("prior sync: {e:#}");
+    let old = std::time::SystemTime::now().duration_since(std::time::UNIX_EPOCH).unwrap().as_secs() - 400 * 86400;
+    std::fs::write(w.ctl("date"), format!("{old} +0000\n")).map_err(|e| format!("HARNESS date file: {e}"))?;
+    // plain handles here: no snapshot is asked for while the history is being aged
+    let mut sa = rec(block_on(w.cfg(0).into_server()).map_err(e)?, accepted);
+    let mut sb = rec(block_on(w.cfg(1).into_server()).map_err(e)?, accepted);
+    let _ = env;
+    commit(a, &[AbsOp::Set(task(), "p".into(), "A0".into(), ts(1))])?;
+    block_on(a.sync(&mut sa, true)).map_err(e)?;
+    {
+        // an old snapshot (of the first version), to be superseded by the target sync's
+        let t = block_on(model::replica_tasks(a)).map_err(|e| e.to_string())?;
+        let v = accepted.borrow().last().map(|x| x.0).ok_or("no version accepted")?;
+        block_on(sa.add_snapshot(v, crate::props::c12::encode_snapshot(&t))).map_err(|e| format!("prior snapshot: {e:#}"))?;
+    }
+    block_on(b.sync(&mut sb, true)).map_err(e)?;
+    commit(b, &[AbsOp::Set(task(), "q".into(), "B1".into(), ts(2))])?;
+    block_on(b.sync(&mut sb, true)).map_err(e)?;
+    block_on(a.sync(&mut sa, true)).map_err(e)?;
+    commit(a, &[AbsOp::Set(task(), "r".into(), "A2".into(), ts(3))])?;
+    block_on(a.sync(&mut sa, true)).map_err(e)?;
+    block_on(b.sync(&mut sb, true)).map_err(e)?;
+    std::fs::remove_file(w.ctl("date")).map_err(|e| format!("HARNESS date file: {e}"))?;
+    // recent: B pushes one more version; A has one losing and one winning change pending
+    commit(b, &[AbsOp::Set(task(), "q".into(), "B3".into(), ts(4))])?;
+    block_on(b.sync(&mut sb, true)).map_err(e)?;
+    commit(a, &[AbsOp::Set(task(), "r".into(), "A4".into(), ts(5)), AbsOp::Set(task(), "q".into(), "A4q".into(), ts(1))])?;
+    Ok(())
+}
+
 pub struct GitWorld {
     pub dir: TempDir,
     pub wrapper: std::path::PathBuf,
@@ -543,11 +604,20 @@ impl GitWorld {
 }
 
 fn git_env_of(w: std::rc::Rc<GitWorld>, name: &str) -> Env {
+    git_env_of2(w, name, false)
+}
+
+/// `aged`: the history is legitimately trimmed (audit through a fresh replica), and replica A's
+/// handle asks for a snapshot after every accepted version.
+fn git_env_of2(w: std::rc::Rc<GitWorld>, name: &str, aged: bool) -> Env {
     let (w1, w2) = (w.clone(), w.clone());
     Env {
-        trimmed: false,
+        trimmed: aged,
         name: name.into(),
-        open: Box::new(move |c| block_on(w1.cfg(c).into_server()).map_err(|e| format!("{e:#}"))),
+        open: Box::new(move |c| {
+            let h = block_on(w1.cfg(c).into_server()).map_err(|e| format!("{e:#}"))?;
+            Ok(if aged && c == 0 { Box::new(ForceHigh(h)) as Box<dyn Server> } else { h })
+        }),
         // audit: a fresh clone when there is a remote, the same repository otherwise
         open_audit: Box::new(move || block_on(w2.cfg(9).into_server()).map_err(|e| format!("{e:#}"))),
         dir: None,
@@ -557,25 +627,38 @@ fn git_env_of(w: std::rc::Rc<GitWorld>, name: &str) -> Env {
 pub const GIT_KINDS: &[&str] = &["fail-before", "run-then-fail", "kill-before", "run-then-kill", "unreachable-from"];
 
 /// Number of git invocations of the target sync in a fault-free run (deterministic per config).
-fn git_count(with_remote: bool) -> Result<Vec<String>, String> {
+fn git_count(with_remote: bool, aged: bool) -> Result<Vec<String>, String> {
     let w = std::rc::Rc::new(GitWorld::new(with_remote)?);
-    let env = git_env_of(w.clone(), "git");
+    let env = git_env_of2(w.clone(), "git", aged);
     let accepted: Accepted = Default::default();
     let rdir = w.dir.path().join("replicaA");
     let mut a = sqlite_rep(&rdir);
     let mut b = mem_rep();
-    prior(&env, &mut a, &mut b, &accepted)?;
+    if aged {
+        prior_git_aged(&env, &w, &mut a, &mut b, &accepted)?;
+    } else {
+        prior(&env, &mut a, &mut b, &accepted)?;
+    }
     let mut sa = (env.open)(0)?;
     w.reset_count();
     let _ = std::fs::remove_file(w.ctl("log"));
     block_on(a.sync(&mut sa, true)).map_err(|e| format!("fault-free target sync: {e:#}"))?;
     // the git subcommand of every invocation of the target sync, in order
     let log = std::fs::read_to_string(w.ctl("log")).unwrap_or_default();
-    Ok(log.lines().map(|l| l.split_whitespace().nth(1).unwrap_or("?").to_string()).collect())
+    let subs: Vec<String> = log.lines().map(|l| l.split_whitespace().nth(1).unwrap_or("?").to_string()).collect();
+    if aged && subs.iter().filter(|s| *s == "rm").count() < 2 {
+        return Err(format!("HARNESS aged git history: the fault-free target sync removed {} version files, at least 2 expected (commands: {})", subs.iter().filter(|s| *s == "rm").count(), subs.join(" ")));
+    }
+    Ok(subs)
 }
 
-fn git_case(with_remote: bool, k: usize, kind: &str, index: u64, out: &mut CaseOut) {
-    let name = if with_remote { "git-remote" } else { "git-local" };
+fn git_case(with_remote: bool, aged: bool, k: usize, kind: &str, index: u64, out: &mut CaseOut) {
+    let name = match (with_remote, aged) {
+        (true, false) => "git-remote",
+        (false, false) => "git-local",
+        (true, true) => "git-remote-aged",
+        (false, true) => "git-local-aged",
+    };
     let replay = json!({"stratum": name, "index": index, "invocation": k, "kind": kind});
     let w = match GitWorld::new(with_remote) {
         Ok(w) => std::rc::Rc::new(w),
@@ -584,20 +667,25 @@ fn git_case(with_remote: bool, k: usize, kind: &str, index: u64, out: &mut CaseO
             return;
         }
     };
-    let env = git_env_of(w.clone(), name);
+    let env = git_env_of2(w.clone(), name, aged);
     let accepted: Accepted = Default::default();
     let rdir = w.dir.path().join("replicaA");
     let mut a = sqlite_rep(&rdir);
     let mut b = mem_rep();
-    if let Err(e) = prior(&env, &mut a, &mut b, &accepted) {
-        out.violate(format!("{name}/prior-failed"), e, replay);
+    let pr = if aged { prior_git_aged(&env, &w, &mut a, &mut b, &accepted) } else { prior(&env, &mut a, &mut b, &accepted) };
+    if let Err(e) = pr {
+        if e.starts_with("HARNESS") {
+            out.inconclusive = Some(e);
+        } else {
+            out.violate(format!("{name}/prior-failed"), e, replay);
+        }
         return;
     }
     let kill = kind.contains("kill");
     let mut cmd_line = String::new();
     if kill {
         drop(a);
-        let spec = json!({"backend": "git", "local_path": match w.cfg(0) { ServerConfig::Git { local_path, .. } => local_path, _ => unreachable!() }, "remote": w.remote, "wrapper": w.wrapper, "replica_dir": rdir, "ctl": w.ctl(""), "k": k, "kind": kind});
+        let spec = json!({"backend": "git", "local_path": match w.cfg(0) { ServerConfig::Git { local_path, .. } => local_path, _ => unreachable!() }, "remote": w.remote, "wrapper": w.wrapper, "replica_dir": rdir, "ctl": w.ctl(""), "k": k, "kind": kind, "aged": aged});
         let sf = w.dir.path().join("spec.json");
         std::fs::write(&sf, spec.to_string()).unwrap();
         let st = Command::new(std::env::current_exe().unwrap()).args(["worker", "c11", sf.to_str().unwrap()]).stdout(Stdio::null()).stderr(Stdio::null()).status();
@@ -681,6 +769,9 @@ pub fn worker(args: &[String]) -> i32 {
                 git_path: Some(spec["wrapper"].as_str().unwrap().into()),
             };
             let mut s = block_on(cfg.into_server()).expect("open git");
+            if spec["aged"].as_bool() == Some(true) {
+                s = Box::new(ForceHigh(s));
+            }
             let ctl = std::path::PathBuf::from(spec["ctl"].as_str().unwrap());
             std::fs::write(ctl.join("count"), "0\n").unwrap();
             std::fs::write(ctl.join("plan"), format!("{} {}\n", spec["k"], spec["kind"].as_str().unwrap())).unwrap();
@@ -736,12 +827,21 @@ pub fn run(ctx: &Ctx) -> Outcome {
             acc.require("aged_syncs_with_cleanup_deletions", 5, "the aged object-store stratum saw too few syncs whose add_version ran a deleting cleanup");
         }
     }
-    for with_remote in [false, true] {
-        let name = if with_remote { "git-remote" } else { "git-local" };
+    for (with_remote, aged) in [(true, true), (false, true), (false, false), (true, false)] {
+        let name = match (with_remote, aged) {
+            (true, false) => "git-remote",
+            (false, false) => "git-local",
+            (true, true) => "git-remote-aged",
+            (false, true) => "git-local-aged",
+        };
         if !want(name) {
             continue;
         }
-        let subcommands = match git_count(with_remote) {
+        // quick tier: the aged local-only configuration is left to the thorough tier
+        if aged && !with_remote && ctx.tier == crate::report::Tier::Quick && only.is_none() {
+            continue;
+        }
+        let subcommands = match git_count(with_remote, aged) {
             Ok(n) => n,
             Err(e) => {
                 if e.starts_with("HARNESS") {
@@ -756,7 +856,29 @@ pub fn run(ctx: &Ctx) -> Outcome {
         let kinds: Vec<&str> = GIT_KINDS.iter().copied().filter(|k| with_remote || *k != "unreachable-from").collect();
         let total = (n * kinds.len()) as u64;
         // quick tier: with a remote, a seeded sample of the (invocation, kind) pairs; all of them otherwise
-        let sample: Vec<u64> = if ctx.tier == crate::report::Tier::Quick && with_remote && only_idx.is_none() {
+        let sample: Vec<u64> = if ctx.tier == crate::report::Tier::Quick && aged && only_idx.is_none() {
+            // the steps that only this stratum reaches: the first and last removal of an expired
+            // version file, the snapshot's and the cleanup's commit and push
+            let all_of = |sub: &str| -> Vec<usize> { subcommands.iter().enumerate().filter(|(_, s)| *s == sub).map(|(i, _)| i).collect() };
+            let (rms, commits, pushes) = (all_of("rm"), all_of("commit"), all_of("push"));
+            let mut points: Vec<usize> = vec![];
+            points.extend(rms.first());
+            points.extend(rms.last());
+            points.extend(commits.iter().rev().take(2));
+            points.extend(pushes.iter().rev().take(2));
+            let mut picks: Vec<u64> = vec![];
+            for (ki, kind) in kinds.iter().enumerate() {
+                for (pi, p0) in points.iter().enumerate() {
+                    // every point with the two process-stop kinds; the error kinds on alternating points
+                    if kind.contains("kill") || (pi + ki) % 2 == 0 {
+                        picks.push((p0 * kinds.len() + ki) as u64);
+                    }
+                }
+            }
+            picks.sort();
+            picks.dedup();
+            picks
+        } else if ctx.tier == crate::report::Tier::Quick && with_remote && only_idx.is_none() {
             // stratified: for every fault kind the first `add`, the `commit` and the `push` of the
             // write path; for "unreachable from" additionally the first `ls-remote` and `fetch`;
             // plus a few seeded extra points
@@ -800,7 +922,11 @@ pub fn run(ctx: &Ctx) -> Outcome {
             let k = 1 + (i as usize) / kinds.len();
             let kind = kinds[(i as usize) % kinds.len()];
             let mut out = CaseOut::new();
-            git_case(with_remote, k, kind, i, &mut out);
+            git_case(with_remote, aged, k, kind, i, &mut out);
+            if aged {
+                let n = out.counters.get("git_command_faults").copied().unwrap_or(0) + out.counters.get("child_kills").copied().unwrap_or(0);
+                out.count("aged_git_faults_in_snapshot_or_cleanup_sync", n);
+            }
             out
         });
         if only.is_none() && sample.len() as u64 == total && !skipped.load(std::sync::atomic::Ordering::Relaxed) {
@@ -814,6 +940,7 @@ pub fn run(ctx: &Ctx) -> Outcome {
         acc.require("object_store_faults", 20, "too few object-store faults");
         acc.require("git_command_faults", 8, "too few git command faults");
         acc.require("child_kills", 4, "too few process kills at git commands");
+        acc.require("aged_git_faults_in_snapshot_or_cleanup_sync", 8, "too few faults inside a git sync that stores a snapshot and removes expired versions");
     }
     Outcome {
         level: "fault_enumeration",
